@@ -424,7 +424,8 @@ func (env *Env) call(n *ECall) Val {
 		for i := range n.Args {
 			m := env.eval(n.Args[i])
 			mo := env.inOld().eval(n.Args[i])
-			eqs = append(eqs, env.mapContentsEq(env.st, m, env.inOld().st, mo))
+			// the nil map holds nothing, before and after
+			eqs = append(eqs, Or(And(Eq(m.T(), TZero), Eq(mo.T(), TZero)), env.mapContentsEq(env.st, m, env.inOld().st, mo)))
 		}
 		return boolVal(And(eqs...))
 	case "decoded":
@@ -706,6 +707,8 @@ func (env *Env) unchangedWorld(except []string) Term {
 		var was Term
 		if o, ok := old[name]; ok {
 			was = o
+		} else if w, ok := lastWildFor(old, name); ok {
+			was = env.x.decls.Const(name+"@w"+w.seq, cur.Sort)
 		} else {
 			was = env.x.decls.Const(name+"@0", cur.Sort)
 		}
@@ -717,7 +720,8 @@ func (env *Env) unchangedWorld(except []string) Term {
 			out = append(out, Eq(cur, was))
 			continue
 		}
-		out = append(out, Forall([]Term{i}, Implies(And(Ge(i, TZero), Le(i, *lim)), Eq(Select(cur, i), Select(was, i)))))
+		// reference 0 is nil: it is no object and holds nothing
+		out = append(out, Forall([]Term{i}, Implies(And(Gt(i, TZero), Le(i, *lim)), Eq(Select(cur, i), Select(was, i)))))
 	}
 	return And(out...)
 }
